@@ -380,8 +380,9 @@ fn main() {
     let maxthreads = kverif::arg_u64(&a, "max-threads", 4);
     let lin_budget = kverif::arg_u64(&a, "lin-budget", 300_000);
     let stop_after = kverif::arg_u64(&a, "stop-after", 5);
-    let grace = Duration::from_millis(kverif::arg_u64(&a, "grace-ms", 20_000));
-    let cap_wall = Duration::from_millis(kverif::arg_u64(&a, "cap-ms", 120_000));
+    // under Miri the clock is virtual: time must never be a verdict there (Miri reports deadlocks itself)
+    let grace = Duration::from_millis(if cfg!(miri) { u32::MAX as u64 * 1000 } else { kverif::arg_u64(&a, "grace-ms", 20_000) });
+    let cap_wall = Duration::from_millis(if cfg!(miri) { u32::MAX as u64 * 1000 } else { kverif::arg_u64(&a, "cap-ms", 120_000) });
     let budget_s = kverif::arg_u64(&a, "budget-s", 3600) as f64;
     let classes_arg = kverif::arg_str(&a, "classes", "").to_string();
     let classes: Vec<&'static str> = if classes_arg.is_empty() {
@@ -392,7 +393,7 @@ fn main() {
     let caps_arg = kverif::arg_str(&a, "caps", "0,1,2,7,u").to_string();
     let caps: Vec<Option<usize>> = caps_arg.split(',').map(parse_cap).collect();
     let miri = cfg!(miri);
-    payload::init(if mode == "long" { 1 << 22 } else { 1 << 11 });
+    payload::init(if cfg!(miri) { 1 << 10 } else if mode == "long" { 1 << 22 } else { 1 << 11 });
     fp::install();
     #[cfg(feature = "tsan")]
     kverif::tsan::install();
